@@ -333,6 +333,8 @@ def _path_job_inner(prefix):
     if _os.environ.get("PYVC_CORE") and info["outcome"] == _os.environ.get("PYVC_CORE_OUTCOME", "normal") and path.obligations:
         _dump_core(path.obligations[-1].assumptions)
     for i, ob in enumerate(path.obligations):
+        if _os.environ.get("PYVC_DUMP_OB") and _os.environ["PYVC_DUMP_OB"] in ob.name:
+            _dump_assumptions(ob)
         rec = {"name": ob.name, "line": ob.line, "kind": ob.kind, "note": ob.note,
                "effects": [e[0] for e in path.effects if e[0] != "Fs"], "outcome": info["outcome"]}
         res = _solve_one(i)
@@ -348,6 +350,15 @@ def _path_job_inner(prefix):
                       and all(r["status"] == "proved" for r in out["records"])
                       and _solve.inconsistent(path.obligations[-1].assumptions))
     return out
+
+
+def _dump_assumptions(ob):
+    import sys
+
+    print("OBLIGATION", ob.name, file=sys.stderr)
+    for a in ob.assumptions:
+        print("  A:", str(a)[:700].replace("\n", " "), file=sys.stderr)
+    print("  GOAL:", str(ob.goal)[:1500].replace("\n", " "), file=sys.stderr)
 
 
 def _dump_core(assumptions):
